@@ -147,7 +147,33 @@ pub fn run(toks: &[&str]) -> String {
             Ok(Some(q)) => format!("ok [{}]", show_qsong(&q)),
             Err(e) => show_err(&e),
         },
-        "Find" => multi(Find::new(Filter::tag(Tag::Artist, "x")).response(frame)),
+        "Find" => {
+            // the songs listed are the songs decoded, in the server's order, however the request was configured (sort by any tag,
+            // any window): the reply is not re-ordered, filtered or cut on the client
+            let base = || Find::new(Filter::tag(Tag::Artist, "x"));
+            let plain = multi(base().response(frame.clone()));
+            let variants: Vec<(&str, Find)> = vec![
+                ("sort(Title)", base().sort(Tag::Title)),
+                ("sort(Artist)", base().sort(Tag::Artist)),
+                ("sort(Other(\"Last-Modified\"))", base().sort(Tag::Other("Last-Modified".into()))),
+                ("sort(Track).window(0..2)", base().sort(Tag::Track).window(0..2)),
+                ("window(1..)", base().window(1..)),
+                ("window(..=usize::MAX)", base().window(..=usize::MAX)),
+                ("window(7..3)", base().window(7..3)),
+            ];
+            for (name, cmd) in variants {
+                let f2 = frame.clone();
+                let got = match catch(move || multi(cmd.response(f2))) {
+                    Ok(s) => s,
+                    Err(_) => "PANIC".to_string(),
+                };
+                if got != plain {
+                    return format!("INCONSISTENT Find::new(f).{name}.response(reply) differs from Find::new(f).response(reply): {} vs {}", got.replace(' ', "_"), plain.replace(' ', "_"));
+                }
+            }
+            plain
+        }
+        "QueueRangeAll" => multi_q(QueueRange::range(..).response(frame)),
         "GetPlaylist" => multi(GetPlaylist("p").response(frame)),
         "ListAllIn" => multi(ListAllIn::root().response(frame)),
         other => format!("unknown-command {}", other),
